@@ -332,9 +332,10 @@ class HttpParser:
             if curr.find(':') < 0:
                 raise InvalidHeader('invalid line %s' % curr.strip())
             name, value = curr.split(':', 1)
-            name = name.rstrip(' \t').upper()
+            name = name.rstrip(' \t')
             if not name or HEADER_RE.search(name):
                 raise InvalidHeader('invalid header name %s' % name)
+            name = name.upper()  # after the check: upper() turns e.g. '\xdf' into 'SS'
 
             if value.endswith('\r\n'):
                 value = value[:-2]
